@@ -168,7 +168,8 @@ fn judge_thread(p: &Puppet, e: &Expect, cb: &[u8], stack_start: u64, stack_len: 
 /// One puppet with the given register files (one thread each); returns failures.
 /// `optmode`: 0 default options; 1 size limit 0 (always exceeded) with the LAST thread blamed; 2 the same
 /// plus stack sanitising and skip-unreferenced; 3 size limit 0 with a thread in the middle blamed;
-/// 4 the target was stopped by job control (SIGTSTP) before the request; 5 stopped by SIGSTOP before the request.
+/// 4 the target was stopped by job control (SIGTSTP) before the request; 5 stopped by SIGSTOP before the request;
+/// 6 the null-stack-pointer helper threads are created before the ordinary threads.
 fn run_regfiles(files: &[RegFile], null_sp_threads: usize) -> (Value, Vec<(String, String)>, u64) {
     run_regfiles_opt(files, null_sp_threads, 0)
 }
@@ -176,6 +177,23 @@ fn run_regfiles(files: &[RegFile], null_sp_threads: usize) -> (Value, Vec<(Strin
 fn run_regfiles_opt(files: &[RegFile], null_sp_threads: usize, optmode: u8) -> (Value, Vec<(String, String)>, u64) {
     let mut p = Puppet::spawn();
     let mut exp = Vec::new();
+    // sandbox-helper look-alikes: spin threads with a null stack pointer; with optmode 6 they are created
+    // FIRST, so that ordinary threads follow them in the kernel's thread list
+    let mut null_exp: Vec<Expect> = Vec::new();
+    let mk_nulls = |p: &mut Puppet, null_exp: &mut Vec<Expect>| {
+        for k in 0..null_sp_threads {
+            let t = p.mkthread(Kind::Spin);
+            for r in 0..16 {
+                p.set_gpr(t, r, sentinel(200 + k, r));
+            }
+            p.set_gpr(t, RSP, 0);
+            let tid = p.start(t);
+            null_exp.push(Expect { tid, kind: Kind::Spin, gpr: [0; 16], xmm: [0; 16], mxcsr: 0, cw: 0, page: p.threads[t].page, skipped: true, dev: Some((RSP, 100 + k)) });
+        }
+    };
+    if optmode == 6 {
+        mk_nulls(&mut p, &mut null_exp);
+    }
     for (i, rf) in files.iter().enumerate() {
         exp.push(setup_thread(&mut p, i, rf));
     }
@@ -186,16 +204,10 @@ fn run_regfiles_opt(files: &[RegFile], null_sp_threads: usize, optmode: u8) -> (
             p.set_name(e.tid, if i % 2 == 0 { b"\xff\xfe" } else { b"caf\xe9-latin1" });
         }
     }
-    // sandbox-helper look-alikes: spin threads with a null stack pointer
-    for k in 0..null_sp_threads {
-        let t = p.mkthread(Kind::Spin);
-        for r in 0..16 {
-            p.set_gpr(t, r, sentinel(200 + k, r));
-        }
-        p.set_gpr(t, RSP, 0);
-        let tid = p.start(t);
-        exp.push(Expect { tid, kind: Kind::Spin, gpr: [0; 16], xmm: [0; 16], mxcsr: 0, cw: 0, page: p.threads[t].page, skipped: true, dev: Some((RSP, 100 + k)) });
+    if optmode != 6 {
+        mk_nulls(&mut p, &mut null_exp);
     }
+    exp.extend(null_exp);
     p.quiesce();
     let case = json!({"files": files.iter().map(|f| json!([f.kind.name(), f.dev.map(|d| json!([d.0, d.1]))])).collect::<Vec<_>>(), "null_sp_threads": null_sp_threads, "optmode": optmode});
     let mut fails = Vec::new();
@@ -578,6 +590,9 @@ pub fn run(ctx: &Ctx, rep: &mut Report) {
                 if n <= 8 && mix == 2 {
                     items.push((files.clone(), nulls, 4));
                     items.push((files.clone(), nulls, 5));
+                }
+                if nulls > 0 && n <= 21 {
+                    items.push((files.clone(), nulls, 6));
                 }
             }
         }
